@@ -229,6 +229,23 @@ theorem c16_exit_once_leaks_on_reuse (d : Design) (hd : d.exitOnce = true) (os :
   obtain ⟨p₁, c₁, l₁⟩ := s₁
   simp [sessions, sessionsFrom, hd, skippedExit, hc]
 
+/-- **A handshake that fails on entry cleans up.**  Entering through the handshake wrapper with a
+child that never answers raises, and the child is reaped within the bound all the same — whatever
+the child otherwise does and however much output is queued. -/
+theorem c16_failed_handshake_cleans_up (os : OS) (p : ExitPath) (c : ChildSpec) (l : Load)
+    (hkill : os.killDelay < graceKillMs) (hwait : os.waitReaps = true) :
+    (sessionWithHandshake Design.sound os false p c l).1 = true
+    ∧ ∃ t, (sessionWithHandshake Design.sound os false p c l).2 = some t ∧ t.duration ≤ 2000 ∧ t.child = .reaped := by
+  refine ⟨rfl, ?_⟩
+  exact c16_leave_sound os .exception c l hkill hwait
+
+/-- a child that reacts to SIGTERM 100 ms after the first grace period has run out is killed at g₁ -/
+example : leave Design.sound ⟨5, true⟩ .normal (childSpec (.slowTerm 1100) (.after 1)) ⟨0, 131072⟩
+    = some { signals := [(0, .term), (1000, .kill)], duration := 1005, child := .reaped } := by decide
+/-- ... and one that reacts 100 ms before is not -/
+example : leave Design.sound ⟨5, true⟩ .normal (childSpec (.slowTerm 900) (.after 1)) ⟨0, 131072⟩
+    = some { signals := [(0, .term)], duration := 900, child := .reaped } := by decide
+
 /-- **Cancellation while entering.**  Without a cancellable await between the spawn and the point
 from which the child is owned, a cancellation delivered at ANY point of entering leaves no child
 running: either nothing was spawned, or the spawn was undone, or the context is entered and is
